@@ -1,4 +1,4 @@
-import Mitx.Munkres.Square
+import Mitx.Munkres.Rect
 /-! # C06 — the assignment solver returns a complete minimum-cost matching for any matrix
 
 Property theorems only (helper lemmas live in `Mitx/Munkres/*`). The model is `Mk.compute`
@@ -15,11 +15,29 @@ theorem solver_square {m : List (List Rat)} {n : Nat} (h : IsSquare m n) :
         ∑ i : Fin n, matFn m (i : Nat) ((τ i : Fin n) : Nat) ≤ ∑ i : Fin n, matFn m (i : Nat) ((ρ i : Fin n) : Nat) :=
   compute_square h
 
+/-- **Any rectangular matrix** (`r × c`, every rational entry, ties allowed): the solver terminates with the model's own
+    fuel; the returned list lies inside the original matrix, uses each row and each column at most once, has exactly
+    `min r c` pairs, and its total cost is minimal among all such matchings (zero padding of the squared copy neither
+    changes the optimum nor the number of stars inside the window). -/
+theorem solver_rect {m : List (List Rat)} {r c : Nat} (h : IsRect m r c) :
+    ∃ out, compute m = some out ∧ Matching r c out ∧ out.length = min r c ∧
+      ∀ alt, Matching r c alt → alt.length = min r c → cost m out ≤ cost m alt :=
+  compute_rect h
+
+/-- the same guarantee for a reused solver object, whatever state the previous solve left behind -/
+theorem solver_rect_reused (s : St) {m : List (List Rat)} {r c : Nat} (h : IsRect m r c) :
+    ∃ out, computeOn s m = some out ∧ Matching r c out ∧ out.length = min r c ∧
+      ∀ alt, Matching r c alt → alt.length = min r c → cost m out ≤ cost m alt :=
+  compute_rect h
+
 /-- Reuse of one solver object: whatever state an earlier solve left behind, the next solve is the fresh one. -/
 theorem solver_state_independent (s : St) (m : List (List Rat)) : computeOn s m = compute m := rfl
 
 /-- non-vacuity: a concrete 3×3 matrix meets the hypothesis and the optimum is the anti-diagonal-ish one -/
 example : IsSquare [[1, 2, 3], [2, 4, 6], [3, 6, 9]] 3 := ⟨by decide, rfl, by simp⟩
 example : compute [[1, 2, 3], [2, 4, 6], [3, 6, 9]] = some [(0, 2), (1, 1), (2, 0)] := by decide +kernel
+example : IsRect [[4, 1, 3], [2, 0, 5]] 2 3 := ⟨by decide, by decide, rfl, by simp⟩
+example : compute [[4, 1, 3], [2, 0, 5]] = some [(0, 1), (1, 0)] := by decide +kernel
+example : compute [[4, 2], [1, 0], [3, 5]] = some [(1, 1), (2, 0)] := by decide +kernel
 
 end C06
